@@ -71,6 +71,22 @@ def bifurcations (g : Graph) (col : List Rat) (th : Rat) (order : List Nat) :
     maskedArgmax g.V (at_ col) (fun v => labelA.getD v (-1) == (c : Int)))
   some (idx, (List.range st.q).map st.parent, label)
 
+/-- number of regions opened once every vertex with value `≥ t` has been processed (the sweep stopped
+    after the superlevel set `{val ≥ t}`) -/
+def cutIndex (rows : Nat → List Nat) (val : Nat → Rat) (order : List Nat) (t : Rat) : Nat :=
+  (bifSweep rows (order.takeWhile (fun v => decide (t ≤ val v)))).q
+
+/-- the cut index at the level of every vertex of the order (`bifk` line): how many regions are born
+    at levels `≥` the value of that vertex; `none` when the order is not valid -/
+def bifCuts (g : Graph) (col : List Rat) (th : Rat) (order : List Nat) : Option (List Nat) :=
+  let valid := fun v => decide (th ≤ at_ col v)
+  let sg := subgraph g valid
+  let sc := subcol g.V valid col
+  if sg.V = 0 then some [] else
+  if !validDescOrder sg.V (at_ sc) order then none else
+  let rowsA := ((List.range sg.V).map (openRow sg)).toArray
+  some (order.map (fun v => cutIndex (fun i => rowsA.getD i []) (at_ sc) order (at_ sc v)))
+
 /-! ## get_local_maxima, custom_watershed as coded -/
 
 /-- `get_local_maxima`: positions and values of the non-zero depths -/
@@ -90,17 +106,22 @@ def watershedC (g : Graph) (col : List Rat) (th : Rat) : List Nat × List Int :=
 
 /-! ## Histories on one Field object -/
 
+/-- the object: graph (vertices, edges, weights), field columns, and whether the field array is
+    `float64` (the dtype decides which dilation path runs) -/
 structure FieldSt where
   g : Graph
   cols : List (List Rat)
+  is64 : Bool
 
 inductive FieldOp
-  | setField (cols : List (List Rat))
-  /-- `fast` = the call's `fast` flag and the data being float64 (observed) -/
+  /-- `set_field(data)`; `is64` = the dtype of `data` is float64 -/
+  | setField (cols : List (List Rat)) (is64 : Bool)
+  /-- `dilation(n, fast)`: `fast` is the flag of the CALL; the compiled path runs iff
+      `fast and self.field.dtype == float64` -/
   | dilation (n : Nat) (fast : Bool)
   | erosion (n : Nat)
-  | opening (n : Nat) (fast : Bool)
-  | closing (n : Nat) (fast : Bool)
+  | opening (n : Nat)
+  | closing (n : Nat)
   | diffusion (n : Nat)
   | subfield (valid : List Bool) (replace : Bool)
   | copy (replace : Bool)
@@ -111,42 +132,66 @@ inductive FieldOp
   | glmax (d : Nat) (th : Rat)
   | ws (d : Nat) (th : Rat)
   | hn (d : Nat)
+  /-- `set_edges(edges)` / `self.edges = edges` with an `(E, 2)` array: edges replaced, weights kept -/
+  | setEdges (es : List (Nat × Nat))
+  /-- `set_weights(w)`: weights replaced, edges kept -/
+  | setWeights (ws : List Rat)
 
 def dilate (g : Graph) (n : Nat) (fast : Bool) (col : List Rat) : Option (List Rat) :=
   if fast then some (fastDilate g n col) else slowDilate g n col
 
-/-- the in-place operators on one column; `none` = the method raised -/
-def colOp (g : Graph) : FieldOp → Option (List Rat → Option (List Rat))
-  | .dilation n fast => some (dilate g n fast)
+/-- the in-place operators on one column; `none` = not an in-place operator.  The compiled dilation
+    path is taken iff the call asks for it (`opening`/`closing` always do) and the data is float64. -/
+def colOp (g : Graph) (is64 : Bool) : FieldOp → Option (List Rat → Option (List Rat))
+  | .dilation n fast => some (dilate g n (fast && is64))
   | .erosion n => some (erode g n)
-  | .opening n fast => some (fun c => (erode g n c).bind (dilate g n fast))
-  | .closing n fast => some (fun c => (dilate g n fast c).bind (erode g n))
+  | .opening n => some (fun c => (erode g n c).bind (dilate g n is64))
+  | .closing n => some (fun c => (dilate g n is64 c).bind (erode g n))
   | .diffusion n => some (fun c => some (diffuse g n c))
   | _ => none
+
+/-- dtype flag after an in-place operator: the sparse product of `diffusion` yields float64, the
+    morphological operators keep the dtype -/
+def is64After (is64 : Bool) : FieldOp → Bool
+  | .diffusion n => if n = 0 then is64 else true
+  | _ => is64
 
 def subState (s : FieldSt) (valid : List Bool) : Option FieldSt :=
   let v := fun i => valid.getD i false
   if valid.length ≠ s.g.V then none
   else if renumb v s.g.V = 0 then none
-  else some ⟨subgraph s.g v, s.cols.map (subcol s.g.V v)⟩
+  else some ⟨subgraph s.g v, s.cols.map (subcol s.g.V v), s.is64⟩
+
+/-- `set_edges` guards: `(E, 2)` array, `edges.max() + 1 <= V` -/
+def edgesOk (g : Graph) (es : List (Nat × Nat)) : Bool :=
+  decide (es.length = g.edges.length) && es.all (fun e => decide (e.1 < g.V) && decide (e.2 < g.V))
+
+/-- the graph after a graph edit (unchanged when the edit is refused or the call is something else) -/
+def graphAfter (g : Graph) : FieldOp → Graph
+  | .setEdges es =>
+    if edgesOk g es then ⟨g.V, List.zipWith (fun (e : Nat × Nat) (o : Edge) => ⟨e.1, e.2, o.w⟩) es g.edges⟩ else g
+  | .setWeights ws =>
+    if ws.length = g.edges.length then
+      ⟨g.V, List.zipWith (fun (o : Edge) (w : Rat) => ⟨o.src, o.dst, w⟩) g.edges ws⟩ else g
+  | _ => g
 
 def fmtEdges (g : Graph) : String :=
   " ".intercalate (g.edges.map (fun e => s!"{e.src}>{e.dst}:{fmtRat e.w}"))
 
 def fmtFieldSt (s : FieldSt) : String :=
-  s!"{s.g.V} | {fmtEdges s.g} | {fmtCols s.cols}"
+  s!"{s.g.V} | {fmtEdges s.g} | {fmtCols s.cols} | {if s.is64 then 1 else 0}"
 
 /-- one call: `(state afterwards, text of the value returned)` -/
 def stepField (s : FieldSt) (op : FieldOp) : FieldSt × String :=
-  match colOp s.g op with
+  match colOp s.g s.is64 op with
   | some f =>
     match s.cols.mapM f with
-    | some cs => (⟨s.g, cs⟩, "none")
+    | some cs => (⟨s.g, cs, is64After s.is64 op⟩, "none")
     | none => (s, "error:valueError")
   | none =>
     match op with
-    | .setField cols =>
-      if cols.all (fun c => c.length == s.g.V) && !cols.isEmpty then (⟨s.g, cols⟩, "none")
+    | .setField cols is64 =>
+      if cols.all (fun c => c.length == s.g.V) && !cols.isEmpty then (⟨s.g, cols, is64⟩, "none")
       else (s, "error:valueError")
     | .subfield valid replace =>
       if valid.length ≠ s.g.V then (s, "error:valueError") else
@@ -170,6 +215,11 @@ def stepField (s : FieldSt) (op : FieldOp) : FieldSt × String :=
       match s.cols[d]? with
       | some col => (s, "[" ++ fmtNats ((List.range s.g.V).map (highestNeighbor s.g col)) ++ "]")
       | none => (s, "error:indexError")
+    | .setEdges es =>
+      if edgesOk s.g es then (⟨graphAfter s.g op, s.cols, s.is64⟩, "none") else (s, "error:valueError")
+    | .setWeights ws =>
+      if ws.length = s.g.edges.length then (⟨graphAfter s.g op, s.cols, s.is64⟩, "none")
+      else (s, "error:valueError")
     | _ => (s, "-")
 
 def runFieldHist : FieldSt → List FieldOp → List (FieldSt × String)
@@ -180,14 +230,18 @@ def finalField (s : FieldSt) (ops : List FieldOp) : FieldSt := ops.foldl (fun s 
 
 /-! ## Line protocol -/
 
+def pPair : P (Nat × Nat) := do
+  let a ← pNat; let b ← pNat
+  pure (a, b)
+
 def pFieldOp : P FieldOp := do
   let t ← pTok
   match t with
-  | "set" => do let f ← pField; pure (.setField f)
+  | "set" => do let b ← pBool; let f ← pField; pure (.setField f b)
   | "dil" => do let n ← pNat; let b ← pBool; pure (.dilation n b)
   | "ero" => do let n ← pNat; pure (.erosion n)
-  | "open" => do let n ← pNat; let b ← pBool; pure (.opening n b)
-  | "close" => do let n ← pNat; let b ← pBool; pure (.closing n b)
+  | "open" => do let n ← pNat; pure (.opening n)
+  | "close" => do let n ← pNat; pure (.closing n)
   | "diff" => do let n ← pNat; pure (.diffusion n)
   | "sub" => do let r ← pBool; let v ← pList pBool; pure (.subfield v r)
   | "copy" => do let r ← pBool; pure (.copy r)
@@ -196,15 +250,20 @@ def pFieldOp : P FieldOp := do
   | "glmax" => do let d ← pNat; let th ← pRat; pure (.glmax d th)
   | "ws" => do let d ← pNat; let th ← pRat; pure (.ws d th)
   | "hn" => do let d ← pNat; pure (.hn d)
+  | "sete" => do
+      let es ← pList pPair
+      if es.isEmpty then failure else pure (.setEdges es)
+  | "setw" => do let ws ← pList pRat; pure (.setWeights ws)
   | _ => failure
 
-/-- `fieldhist <graph> <field> n op₁ … opₙ` -/
+/-- `fieldhist <is64> <graph> <field> n op₁ … opₙ` -/
 def runFieldHistLine (rest : Toks) : String :=
-  match runP (do let g ← pGraph; let f ← pField; let ops ← pList pFieldOp; pure (g, f, ops)) rest with
+  match runP (do let b ← pBool; let g ← pGraph; let f ← pField; let ops ← pList pFieldOp
+                 pure (b, g, f, ops)) rest with
   | none => "bad-op"
-  | some (g, f, ops) =>
+  | some (b, g, f, ops) =>
     if !wellFormed g f then "bad-op" else
-    let s0 : FieldSt := ⟨g, f⟩
+    let s0 : FieldSt := ⟨g, f, b⟩
     " # ".intercalate (fmtFieldSt s0 :: (runFieldHist s0 ops).map (fun r => r.2 ++ " ~ " ++ fmtFieldSt r.1))
 
 def runThreshF (op : String) (rest : Toks) : String :=
@@ -221,6 +280,10 @@ def runThreshF (op : String) (rest : Toks) : String :=
         match bifurcations g col th o with
         | some (idx, par, lab) => fmtNats idx ++ " | " ++ fmtNats par ++ " | " ++ fmtInts lab
         | none => "invalid-order"
+      | "bifk" =>
+        match bifCuts g col th o with
+        | some ks => fmtNats ks
+        | none => "invalid-order"
       | "wsc" => let (idx, lab) := watershedC g col th; fmtNats idx ++ " | " ++ fmtInts lab
       | "glmax" => let r := getLocalMaxima g col th; fmtNats r.1 ++ " | " ++ fmtNats r.2
       | _ => "bad-op"
@@ -228,6 +291,7 @@ def runThreshF (op : String) (rest : Toks) : String :=
 def runF : Toks → Option String
   | "fieldhist" :: rest => some (runFieldHistLine rest)
   | "bif" :: rest => some (runThreshF "bif" rest)
+  | "bifk" :: rest => some (runThreshF "bifk" rest)
   | "wsc" :: rest => some (runThreshF "wsc" rest)
   | "glmax" :: rest => some (runThreshF "glmax" rest)
   | _ => none
